@@ -48,7 +48,8 @@ def docs():
     d2 = M.ProvDocument()
     d2.add_namespace("ex", "http://example.org/")
     for i in range(40):
-        d2.entity("ex:e%d" % i, {"ex:payload": "x" * 200, "ex:i": i})
+        # several stream buffers long, ASCII and multi-byte text mixed (characters and bytes are counted differently)
+        d2.entity("ex:e%d" % i, {"ex:payload": "x" * 200, "ex:i": i, "ex:note": "ファイル é \U0001F600 " * 12})
     out.append(d2)
     out.append(M.ProvDocument())
     return out
